@@ -590,6 +590,43 @@ fn capacity_extremes(sink: &mut Sink, rng: &mut Rng) {
     }
 }
 
+/// Churn at constant length: a window of `len` consecutive keys slides through the cache (remove the
+/// oldest, insert a fresh one). With the identity hasher the keys sit in consecutive buckets, so
+/// every removal leaves a tombstone and the table reaches `growth_left == 0` again and again at a
+/// constant number of entries — the histories in which the size of an automatic growth step matters.
+fn sliding_window(sink: &mut Sink, rng: &mut Rng, shard: (u64, u64)) {
+    let mut idx = 0u64;
+    for (len, steps) in [(17usize, 260usize), (20, 300), (33, 500), (60, 900), (100, 1400), (6, 120), (15, 200)] {
+        for hk in [HKind::Ident, HKind::Mix] {
+            for cap in [None, Some(len), Some(4 * len)] {
+                idx += 1;
+                if idx % shard.1 != shard.0 {
+                    continue;
+                }
+                let mut w = sink.begin_seq(hk, "sliding-window");
+                sink.step(&mut w, &gen::mk_line(true, Op::New { c: 0, max: usize::MAX, cap }));
+                for i in 0..len {
+                    let kt = types::peek_next_tok();
+                    sink.step(&mut w, &gen::mk_line(false, Op::On { c: 0, op: OpKind::Ins { id: i as u32, kh: 0, kt, vh: 0, vt: kt + 1 } }));
+                }
+                for s in 0..steps {
+                    let oldest = s as u32;
+                    let rm = match rng.below(8) {
+                        0 => OpKind::RmLru,
+                        1 => OpKind::RmE(oldest),
+                        _ => OpKind::Rm(oldest),
+                    };
+                    sink.step(&mut w, &gen::mk_line(false, Op::On { c: 0, op: rm }));
+                    let kt = types::peek_next_tok();
+                    let full = s % 64 == 63 || s + 1 == steps;
+                    sink.step(&mut w, &gen::mk_line(full, Op::On { c: 0, op: OpKind::Ins { id: (len + s) as u32, kh: 0, kt, vh: 0, vt: kt + 1 } }));
+                }
+                sink.end_seq(w);
+            }
+        }
+    }
+}
+
 /// Systematic panic injection: for a set of small states, every operation, every callback kind and
 /// every index n up to the number of callbacks the operation makes without a panic.
 fn panic_systematic(sink: &mut Sink, rng: &mut Rng, shard: (u64, u64), rounds: usize) {
@@ -840,6 +877,7 @@ fn main() {
             retain_exhaustive(&mut sink, &mut rng, n, shard);
         }
         "capx" => capacity_extremes(&mut sink, &mut rng),
+        "slide" => sliding_window(&mut sink, &mut rng, shard),
         "panicx" => panic_systematic(&mut sink, &mut rng, shard, get("--rounds").and_then(|s| s.parse().ok()).unwrap_or(1)),
         "exh" => exhaustive(&mut sink, depth, shard),
         name => {
